@@ -796,12 +796,14 @@ def report_slug(s):
     return re.sub(r'[^a-z0-9]+', '-', s.lower())[:40].strip('-')
 
 
-def tokenizer(ctx, n, want, label, classes=None, variants=('cb', 'nocb', 'eof'), partition=2, fail_positions=None):
+def tokenizer(ctx, n, want, label, classes=None, variants=('cb', 'nocb', 'eof'), partition=2, fail_positions=None, multi=None):
     """one next_json_value call on n free bytes (optionally class-restricted per position of the effective input)"""
     run = ctx.run
     tasks = []
     names = [c[0] for c in FIRST_CLASSES]
-    for v in variants:
+    configs = multi if multi is not None else [(n, classes)]
+    for n, classes in configs:
+      for v in variants:
         if v == 'eof':
             tasks.append((ctx, n, v, (), classes, want, None)); continue
         depth = min(partition, n + (1 if v == 'cb' else 0))
@@ -828,7 +830,7 @@ def tokenizer(ctx, n, want, label, classes=None, variants=('cb', 'nocb', 'eof'),
             f = run.family(name, DESC[name]); f.obligations += c['obl']; f.discharged += c['ok']; f.witnesses += c['wit']; f.paths += c['obl']
             f.bounds = (f.bounds + '; ' if f.bounds else '') + label if label not in f.bounds else f.bounds
         for s in r['samples']:
-            run.family('tok.value', DESC['tok.value']).add_sample(s)
+            if 'tok.value' in want: run.family('tok.value', DESC['tok.value']).add_sample(s)
         for c in r['cands']:
             if c['family'] in want or c['family'] == 'tok.io_error':
                 cands.append(Candidate(c['family'], c['role'], c['text'], c['model'], unmodelled=c['unmodelled']))
